@@ -4,6 +4,7 @@ package gen
 
 import (
 	"math"
+	"os"
 	"math/big"
 	"strings"
 
@@ -56,7 +57,7 @@ func Context(r *rng.R) dec.Ctx {
 func ContextP(r *rng.R, p int64) dec.Ctx {
 	er := ranges[r.Pick(rangeWeights...)]
 	emax := er.emax
-	if emax < p {
+	if emax < p && os.Getenv("VERIF_NARROW_EMAX") == "" {
 		emax = p + int64(r.Intn(3))
 	}
 	return dec.Ctx{P: p, Emin: er.emin, Emax: emax, Mode: Mode(r)}
